@@ -24,11 +24,12 @@ for m in (ENV, JS, MEM, MULTI, SQL):
 HOSTILE = ["'", '"', "' OR '1'='1", "'; DROP TABLE authkeys;--", 'a,b', 'a=b', '../etc/passwd', 'a/b', '%', '_', 'a_b', 'A_OWNER',
            'x_secret', 'é', 'É', 'ß', 'ǆ', '日本', '\U0001F600', 'a b', ' a', 'a ', '', 'a\x00b', 'a\x00', '\\', '%s', '{}', '$HOME',
            'Alice', 'alice', 'ALICE', 'alicE', 'ali', 'alice2', 'null', 'None', '0', 'true', '[]']
-CHANS = ['c1', 'c,2', "c'3", '', 'C1', 'é', 'a b', '[]', '"q"', 'c1 ']
+CHANS = ['c1', 'c,2', "c'3", '', 'C1', 'é', 'a b', '[]', '"q"', 'c1 ', '\U0001F525hot', 'back\\slash', '\u65e5\u672c']
 
 
 def b_(s):
-    return s.encode('utf-8')
+    # (a store may hand back text that is not encodable - lone surrogates: that is an observation, not harness trouble)
+    return s.encode('utf-8', 'surrogatepass') if isinstance(s, str) else bytes(s)
 
 
 def gen_table(rng, n=None, env_safe=False):
